@@ -26,12 +26,11 @@ try:
     assert rc0 == 0, "demo does not pass on the unchanged tree:\n" + out0[-2000:]
     rc, out = sh("git apply %s" % os.path.abspath(patch)); assert rc == 0, out
     rc, out = sh("go build ./... && go build -tags verif ./..."); assert rc == 0, "does not build:\n" + out[-2000:]
-    rc, out = sh("go test -vet=off -count=1 -timeout 25m ./..."); 
     # the demo file itself is part of ./... ; exclude its failures by running the suite without it
-    os.rename(os.path.join(wt, pkgdir, "zz_demo_" + os.path.basename(demo)), "/tmp/zz_demo_hold.go")
+    os.rename(os.path.join(wt, pkgdir, "zz_demo_" + os.path.basename(demo)), "/tmp/zz_demo_hold_%s.go" % name)
     rc, out = sh("go test -vet=off -count=1 -timeout 25m ./...")
     assert rc == 0, "existing suite fails with the change:\n" + out[-3000:]
-    os.rename("/tmp/zz_demo_hold.go", os.path.join(wt, pkgdir, "zz_demo_" + os.path.basename(demo)))
+    os.rename("/tmp/zz_demo_hold_%s.go" % name, os.path.join(wt, pkgdir, "zz_demo_" + os.path.basename(demo)))
     rc1, out1 = sh(democmd)
     assert rc1 != 0, "demo does not fail with the change"
     d = os.path.join("/verif/seeded", name)
